@@ -100,6 +100,9 @@ def rule_mirrorpipe(ctx):
         k = 0
         for r in s.returns:
             rt = _strip_resample(r.term) if f.qual in ASYM_NODES else r.term
+            # a validated `ref.shape == est.shape` makes the two spellings one value
+            eqs = common.path_shape_equalities(r.pc)
+            rt = common.rewrite_equal(rt, eqs)
             for x in tm.walk(rt, seen):
                 if x.op in ("bin", "cmp"):
                     kids = tm.children(x)
@@ -123,7 +126,7 @@ def rule_mirrorpipe(ctx):
                 good = False
                 for a in Rk:
                     for b in Ek:
-                        sa, nb = M.swap(a), M.norm(b)
+                        sa, nb = common.rewrite_equal(M.swap(a), eqs), common.rewrite_equal(M.norm(b), eqs)
                         if sa is nb or (sa.op == "T" and sa.a[0] is nb) or _unloop(sa) is _unloop(nb) or _facet_mirror(a, b):
                             good = True
                 n += 1
